@@ -42,6 +42,7 @@ def st_basis(
     min_l=0,
     balanced=False,
     prim_orders=False,
+    center_orders=False,
 ):
     ncenter = draw(st.integers(1, max_centers))
     shells = []
@@ -94,6 +95,12 @@ def st_basis(
                 "nexp": draw(st.integers(min(mult, max(max_prim, mult)), max(max_prim, mult))),
             }
         )
+    if center_orders:
+        # order of the centres' blocks of shells: as drawn (usually interleaved), grouped per centre
+        # in descending or ascending centre order (C01-seed7: a "grouped means sorted" fast path)
+        how = draw(st.sampled_from(["grouped_descending", "as_drawn", "grouped_ascending", "as_drawn"]))
+        if how != "as_drawn":
+            shells = sorted(shells, key=lambda sh: sh["icenter"], reverse=how == "grouped_descending")
     return {
         "ncenter": ncenter,
         "shells": shells,
